@@ -99,6 +99,22 @@ EmitAttack == (phase = "field") => \A i \in 1..Len(AttackList) : PrintT(<<"ATTAC
 DegenerateList == << [B(1, <<"id">>) EXCEPT !.log_len = 4], [B(2, <<"id", "id">>) EXCEPT !.log_len = 3, !.ext = 2] >>
 EmitDegenerate == (phase = "field") => \A i \in 1..Len(DegenerateList) : PrintT(<<"DEGENERATE", ToJson(CaseOf(DegenerateList[i]))>>)
 
+\* Fixed instances for C06 (thread / feature independence): constraint-evaluation domains of exactly
+\* 1024 and 8192 elements (the concurrency thresholds of the FFT and of the constraint evaluator), an
+\* auxiliary segment, and periodic columns whose cycle exceeds trace_length / threads
+DT(shapes, pc, aux, n) == [Empty EXCEPT !.width = Len(shapes), !.shapes = shapes, !.pcyc = pc,
+                                  !.init = [j \in 1..Len(shapes) |-> IF shapes[j] = "pcol" THEN PerValue(0, pc[1], pc[1] - 1) ELSE j + 1],
+                                  !.asserts = A0, !.aux = aux, !.log_len = n, !.blowup = 8, !.fold = 4, !.rem = 7,
+                                  !.queries = 30, !.grind = 4]
+DetList == <<
+   DT(<<"sum", "mul2">>, <<>>, <<>>, 9),                                   \* ce domain 512 * 2 = 1024
+   DT(<<"cube", "mulper", "pcol">>, <<128>>, Aux2, 8),                    \* ce domain 256 * 4 = 1024, aux + periodic
+   DT(<<"mulper", "sum", "pcol">>, <<1024>>, Aux2, 11),                   \* ce domain 2048 * 4 = 8192, long cycle
+   [DT(<<"per", "mul2">>, <<2048>>, <<[width |-> 1, rands |-> 1, src |-> <<0>>]>>, 12) EXCEPT !.blowup = 4, !.ext = 2]  \* 4096 * 2 = 8192
+>>
+DetOk == \A i \in 1..Len(DetList) : Supported(DetList[i])
+EmitDet == (phase = "field") => \A i \in 1..Len(DetList) : PrintT(<<"DET", ToJson(CaseOf(DetList[i]))>>)
+
 BadBoundary == {i \in 1..Len(BoundaryList) : ~Supported(BoundaryList[i])}
 ShowBad == (phase = "field") => PrintT(<<"BAD", BadBoundary>>)
 BNext == FALSE /\ UNCHANGED vars
